@@ -25,7 +25,8 @@ type wPack struct {
 	NOps   int `json:"n"`
 }
 type wAction struct {
-	K     string  `json:"k"` // new | edit | push | pull | remove
+	K     string  `json:"k"` // new | edit | push | pull | remove | reopen
+	Del   bool    `json:"del,omitempty"` // reopen: delete the clock files first
 	R     int     `json:"r"`
 	E     int     `json:"e,omitempty"` // ordinal into the replica's sorted local entity list
 	Packs []wPack `json:"packs,omitempty"`
@@ -548,6 +549,27 @@ func (s *wSession) do(a wAction) {
 		}
 		s.events = append(s.events, merges...)
 		s.readAll(r)
+	case "reopen":
+		ev := wEvent{Kind: "reopen", R: r, E: -1, New: a.Del}
+		path := fmt.Sprintf("%s/rep%d", s.dir, r)
+		_ = repo.Close()
+		if a.Del {
+			_ = os.RemoveAll(path + "/.git/git-bug/clocks")
+			s.tags["reopen-lost-clocks"] = true
+		} else {
+			s.tags["reopen"] = true
+		}
+		g, err := repository.OpenGoGitRepo(path, "git-bug", []repository.ClockLoader{bug.ClockLoader})
+		if err != nil {
+			s.fail("reopen: %v", err)
+			s.tags["reopen-failed"] = true
+			return
+		}
+		s.repos[r] = krRepo{TestedRepo: g, kr: keyring.NewArrayKeyring(nil)}
+		ev.Out = "done"
+		s.observe(&ev)
+		s.events = append(s.events, ev)
+		s.readAll(r)
 	case "remove":
 		ids := s.localIds(r)
 		if len(ids) == 0 {
@@ -690,6 +712,8 @@ func (s *wSession) coqCase() string {
 			e = fmt.Sprintf("EMerge %d %d %d %d", ev.R, ev.E, mid, mau)
 		case "remove":
 			e = fmt.Sprintf("ERemove %d %d", ev.R, ev.E)
+		case "reopen":
+			e = fmt.Sprintf("EReopen %d %s", ev.R, coqBool(ev.New))
 		}
 		switch ev.Out {
 		case "done":
@@ -785,15 +809,20 @@ func genWorld(r *Rand, maxActions int) wInput {
 			}
 		case x < 14:
 			in.Actions = append(in.Actions, wAction{K: "push", R: rep})
-		case x < 19:
+		case x < 18:
 			in.Actions = append(in.Actions, wAction{K: "pull", R: rep})
 			if r.Bool() {
 				in.Actions = append(in.Actions, wAction{K: "push", R: rep})
 			}
 		default:
-			if r.Chance(1, 3) {
+			switch r.Intn(4) {
+			case 0:
 				in.Actions = append(in.Actions, wAction{K: "remove", R: rep, E: r.Intn(4)})
-			} else {
+			case 1:
+				in.Actions = append(in.Actions, wAction{K: "reopen", R: rep})
+			case 2:
+				in.Actions = append(in.Actions, wAction{K: "reopen", R: rep, Del: true})
+			default:
 				in.Actions = append(in.Actions, wAction{K: "pull", R: rep})
 			}
 		}
